@@ -1365,6 +1365,13 @@ def fam_dict(ctx):
                             xdp=True, min=32, loc=["B", "H", "I", "Q"],
                             hv=["Q"], av=["I"], dict=dd, dorder=dorder,
                             regs=regctx(regs), body=b + tail))
+                    if dorder == "last" and (not ctx.quick or dd is dicts[1]):
+                        # locals that leave the stack offset odd before
+                        # the Dict's key/value areas are laid out
+                        out.append(dict(
+                            xdp=True, min=32, loc=["Q", "I", "H", "B"],
+                            hv=["Q"], av=["I"], dict=dd, dorder=dorder,
+                            regs=regctx(regs), body=b))
     return out
 
 
@@ -1856,7 +1863,7 @@ BUILDERS = {
 # driver
 # ====================================================================
 STRIDES = {
-    "quick": dict(c01=10, c02=5, c03=5, c04=20, c07=10, c08=40, c08k2=4),
+    "quick": dict(c01=12, c02=5, c03=5, c04=24, c07=12, c08=40, c08k2=4),
     "thorough": dict(c01=6, c02=4, c03=2, c04=10, c07=4, c08=4),
 }
 
